@@ -82,6 +82,30 @@ class Call:
     def loc(self):
         return '%s:%d:%d' % (self.span['file'], self.span['line'], self.span['col'])
 
+    @property
+    def gnames(self):
+        """generic arguments as plain names: '[ND/#1, R/#2]' -> ['ND', 'R']"""
+        import re
+        g = self.gargs.strip()
+        if g.startswith('['):
+            g = g[1:-1]
+        out = []
+        depth = 0
+        cur = ''
+        for ch in g:
+            if ch in '<([':
+                depth += 1
+            if ch in '>)]':
+                depth -= 1
+            if ch == ',' and depth == 0:
+                out.append(cur.strip())
+                cur = ''
+            else:
+                cur += ch
+        if cur.strip():
+            out.append(cur.strip())
+        return [re.sub(r'/#\d+', '', x) for x in out]
+
     def arg_term(self, i):
         return self.fn.term(self.args[i])
 
@@ -384,10 +408,36 @@ class Fn:
             if 'fn' in c:
                 return ('fn', c['fn'])
             v = const_value(c)
-            return ('const', c['ty'], v if v is not None else c.get('text', ''))
+            txt = c.get('text', '')
+            if v is None and '::promoted[' in txt:
+                pt = self.promoted_term(txt)
+                if pt is not None:
+                    return pt
+            return ('const', c['ty'], v if v is not None else txt)
         if k in ('copy', 'move'):
             return self.place_term(operand['place'], depth, seen)
         return ('unknown', 'operand')
+
+    def promoted_term(self, txt):
+        """value of a promoted constant `..::promoted[N]` of this body (its _0), when it is a simple aggregate/reference"""
+        try:
+            n = int(txt.rsplit('::promoted[', 1)[1].split(']')[0])
+        except Exception:
+            return None
+        proms = self.j.get('promoted') or []
+        if n >= len(proms):
+            return None
+        if not hasattr(self, '_prom_cache'):
+            self._prom_cache = {}
+        if n not in self._prom_cache:
+            pj = dict(proms[n])
+            pj.update({'path': self.path + '::promoted[%d]' % n, 'kind': 'Promoted', 'vis': '', 'parent': self.path, 'feats': [],
+                       'upvars': [], 'span': self.span, 'promoted': []})
+            pf = Fn(self.facts, pj)
+            t = pf.local_term(0)
+            ok = all(s[0] in ('agg', 'ref', 'const', 'tuple', 'array', 'cast', 'fn') for s in walk(t))
+            self._prom_cache[n] = t if ok and t[0] != 'const' else None
+        return self._prom_cache[n]
 
     def place_term(self, place, depth=0, seen=frozenset()):
         base = self.local_term(place['l'], depth, seen)
